@@ -217,6 +217,8 @@ def run(ctx, rep):
     rule_api(ctx, rep)
     rule_slice(ctx, rep)
     rule_samestr(ctx, rep)
+    from rules import c06_globals
+    c06_globals.run(ctx, rep, rid="R-C14-globals")
     # spans are byte offsets into the pre-processed text but are applied to the original text: the pre-processor must keep every byte position
     from rules import c05_blank
     c05_blank.run(ctx, rep, rid="R-C14-blank")
